@@ -178,6 +178,20 @@ func Mutate(r *rand.Rand, v *Vocab, prev model.Ent) model.Ent {
 		}
 		sort.Strings(keys)
 		k := keys[r.Intn(len(keys))]
+		if ts := model.RefTargets(e.Refs[k]); len(ts) >= 2 && r.Intn(3) == 0 {
+			// the same targets in another order: a different content for the feed (the stored value is a list)
+			p := r.Perm(len(ts))
+			a := make([]any, len(ts))
+			same := true
+			for i, j := range p {
+				a[i] = ts[j]
+				same = same && ts[j] == ts[i]
+			}
+			if !same {
+				e.Refs[k] = a
+				break
+			}
+		}
 		var a []any
 		for _, t := range model.RefTargets(e.Refs[k]) {
 			switch r.Intn(4) {
